@@ -283,6 +283,28 @@ theorem color_function_channels_stable (s t : List CItem) (h : SameComps s t) : 
   funcChannels_congr h
 
 
+/-! ## T18.5 separators inside `calc()`
+
+The order and the separators (space, comma, slash) of the components of a whole property value are checked on the
+implementation (token sequence and reparse under every spacer preference, `order_and_separators` in the harness);
+`do_css_CSSCalc` with `Out.append(..., alwaysS=True)` is modelled (`fmtCalc`) and tied by correspondence. -/
+
+/-- the white space after a `calc()` operator does not depend on any preference: `Out.append(val, 'CHAR',
+alwaysS=True)` ends with the operator followed by one space item, whatever came before (the model function takes no
+preferences at all; a serializer that used `prefs.spacer` here would fuse `- 10px` into `-10px`) -/
+theorem calc_operator_followed_by_space (out : List (List Nat)) (v : List Nat) :
+    ∃ o, outAppendOperator out v = o ++ [v, [0x20]] :=
+  ⟨_, rfl⟩
+
+/-- kernel-run small-scope TEST (not a general theorem): 72 expressions `calc(a o1 b o2 calc(c))` over positive,
+negative and signed operands and all operators are written with exactly one space around every operator — the same
+text under the default preferences, with `spacer=''`, with `listItemSpacer=''` and with both empty -/
+theorem calc_separators_small_scope : calcSamplesOk = true := by decide +kernel
+
+example : fmtCalc f64Ops { Prefs.default with spacer := [], omitLeadingZero := true }
+    [.func (cps "calc("), .operand .percentage (cps "100%"), .s, .op (cps "-"), .s, .operand .dimension (cps "0.50px"),
+     .rparen] = .ok (cps "calc(100% - .5px)") := by decide +kernel
+
 /-! ## strings and URLs
 
 `cssStringDenote` / `writtenUrlDenote` read a written string / `url(...)` as CSS 2.1 defines it (hex escapes with
